@@ -1133,6 +1133,13 @@ private:
       {
         _atomicStats.bytesIn += n;
         std::string k = key(from);
+        if (k.empty())
+        {
+          // key() failed (getnameinfo error). An empty key must never reach
+          // _peerIndex: every such peer would share ONE entry, i.e. one session.
+          error(TransportError::Socket, "peer address cannot be formatted; datagram dropped");
+          continue;
+        }
         SessionId sid = 0;
         auto it = _peerIndex.find(k);
         if (it == _peerIndex.end())
@@ -1392,6 +1399,15 @@ private:
     }
     ::freeaddrinfo(res);
     std::string k = key(to);
+    if (k.empty())
+    {
+      // Same rule as in readFromListener(): no session under an empty key.
+      decltype(_cbs.onClose) closeCb;
+      { std::lock_guard<std::mutex> g(_cbMutex); closeCb = _cbs.onClose; }
+      if (closeCb)
+        closeCb(vr.sid, TransportErrorInfo{TransportError::Config, "peer address cannot be formatted"});
+      return false;
+    }
     auto pit = _peerIndex.find(k);
     bool peerExists = (pit != _peerIndex.end());
     // Note: Even if peer exists, we must create a Session for the new SessionId.
